@@ -19,7 +19,7 @@ type op struct {
 	v, old int // indices into the value table
 }
 
-var kinds = []string{"Load", "Store", "LoadOrStore", "LoadAndDelete", "Delete", "Swap", "CompareAndSwap", "CompareAndDelete", "Range"}
+var kinds = []string{"Load", "Store", "LoadOrStore", "LoadAndDelete", "Delete", "Swap", "CompareAndSwap", "CompareAndDelete", "Range", "RangeStop"}
 
 func (o op) str(vals []string) string {
 	switch o.kind {
@@ -31,6 +31,9 @@ func (o op) str(vals []string) string {
 		return fmt.Sprintf("CompareAndSwap(k%d,%s,%s)", o.k, vals[o.old], vals[o.v])
 	case 7:
 		return fmt.Sprintf("CompareAndDelete(k%d,%s)", o.k, vals[o.old])
+	}
+	if o.kind == 9 {
+		return "Range(stop at once)"
 	}
 	return "Range"
 }
@@ -46,7 +49,7 @@ func alphabet(nvals int) []op {
 			}
 		}
 	}
-	return append(out, op{kind: 8})
+	return append(out, op{kind: 8}, op{kind: 9})
 }
 
 // apply runs o on both maps and returns a description of a disagreement ("" if none).
@@ -98,6 +101,15 @@ func apply[V any](typed *xsync.Map[int, V], ref *sync.Map, o op, vals []V, names
 			}
 		}
 		gotV, wantV = nil, nil
+	}
+	if o.kind == 9 {
+		// Range with a callback that stops at once: exactly one entry is visited (if there is any)
+		g, w := 0, 0
+		gotP = run(func() { typed.Range(func(k int, v V) bool { g++; return false }) })
+		wantP = run(func() { ref.Range(func(k, v any) bool { w++; return false }) })
+		if g != w {
+			return fmt.Sprintf("Range with a callback returning false visits %d entries, sync.Map %d", g, w)
+		}
 	}
 	if (gotP != nil) != (wantP != nil) {
 		return fmt.Sprintf("%s: typed map panic=%v, sync.Map panic=%v", o.str(names), gotP, wantP)
